@@ -21,6 +21,7 @@ Residue: real timeouts/scheduler, TLS, retries after connection errors are separ
 -/
 import FhVerif.Proofs.ClientConn
 import FhVerif.Proofs.Pipeline
+import FhVerif.Gen.PipeShape
 
 namespace Fh.Props.C04
 open Fh Fh.Model.CC Fh.Proofs.ClientConn
@@ -70,6 +71,31 @@ theorem pipeline_stream_own (F : Framing) (maxBody : Nat) (rs : List (Bool × By
     (hwf : ∀ r ∈ rs, wfResp F r.1 r.2) :
     ownAll (readAll F (fixedCfg maxBody) (streamOf rs ++ extra) (rs.map (·.1))) rs :=
   readAll_own F (fixedCfg maxBody) rfl rs extra hwf
+
+/-! ### the writer and the reader of client.go have the shape the model assumes
+
+`pipeline_fifo` rests on `FInv.eq`: every request written on a connection is, in order, in `answered`, with the reader,
+in chR, or with the writer on its way into chR.  In the model the writer has no step between "written" (`writerWrite`)
+and "in chR" (`writerPush`) that drops the item while the connection lives on, and a failed read ends the reader.
+`fhextract` recomputes the control skeletons of the two goroutine bodies on every run (Gen/PipeShape.lean); these
+theorems pin the stretches that matter: a `continue` (or any other way back to the loop head) between `w.req.Write`
+and `chR <- w`, or a reader that goes on after a failed read, stops the proof. -/
+
+/-- written ⇒ queued, or the writer returns (and the worker drops the connection): between `w.req.Write(bw)` and the
+    first `chR <- w` the writer can only fail (`w.done <- …; return err`) -/
+theorem writer_written_implies_queued :
+    Gen.pipeShape_writer_writeToPush =
+      ["for true | if err = w.req.Write(bw); err != nil => send w.done",
+       "for true | if err = w.req.Write(bw); err != nil => return",
+       "for true => label againChR"] ∧
+    Gen.pipeShape_writer_actionsAfterWrite =
+      ["send w.done", "return", "label againChR", "select-send chR", "select-send chR", "send w.done", "return",
+       "bw.Flush", "send w.done", "return", "goto againChR"] := by decide
+
+/-- a failed `w.resp.Read` (connection error or ReadTimeout) answers the item and ends the reader -/
+theorem reader_stops_after_failed_read :
+    Gen.pipeShape_reader_afterRead =
+      ["for true | if err != nil => send w.done", "for true | if err != nil => return", "for true => send w.done"] := by decide
 
 /-! ### the toy framing is a framing (non-vacuity of `wfResp`) -/
 
